@@ -228,7 +228,15 @@ def check_step(m, op, cas, resp, silent, issued):
         if cas != 0 and present and it['cas'] is not None and o != 'add':
             if cas != it['cas']: return expect_err(resp, silent, op, 2, what + ' with a CAS that is not the current one')
         if cas != 0 and not present:
-            return adopt(m, op, resp, k)     # no contract (C02 quantifier): adopt what the code did
+            # C02's quantifier leaves the CAS of such a lifetime open (memc-rs stores the request with a client-derived
+            # CAS).  But IF the store is acknowledged, the item is stored like any other: value, flags and expiry
+            # (C01, C05) are checked from here on; only the CAS-uniqueness claim does not apply to this lifetime.
+            if resp is not None and resp['status'] == 0 and o in ('set', 'add', 'replace'):
+                wf(resp, op)
+                store_item(m, k, op['value'], op.get('flags', 0), op.get('exp', 0), resp, issued, lifetime_new=True)
+                m.items[k]['counter_origin'] = False
+                return
+            return adopt(m, op, resp, k)
         if cas != 0 and present and it['cas'] is None:
             return adopt(m, op, resp, k)
         r = expect_ok_mutation(resp, silent, op, what)
@@ -318,6 +326,9 @@ def boundary_histories():
         H.append([dict(op='tick', n=100), s(exp=10), dict(op='tick', n=50), dict(op='flush', delay=5, quiet=q), dict(op='tick', n=1), dict(op='get', key=K)])
         H.append([s(), s(), dict(op='set', key=J, value=b'x', cas=2**64 - 1, quiet=q), s(), s(), s(), dict(op='set', key=K, value=b'LOST', cas='stale', quiet=q), dict(op='get', key=K)])
         H.append([s(), s(), dict(op='set', key=J, value=b'x', cas=2**64 - 2, quiet=q), s(), s(), s(), s(), dict(op='set', key=K, value=b'LOST', cas='stale', quiet=q), dict(op='get', key=K)])
+        # an acknowledged CAS store on an absent key is a store: it lives for its ttl from NOW, also late in the server's life
+        H.append([dict(op='tick', n=1000), dict(op='set', key=K, value=b'w', cas=7, exp=60, flags=3, quiet=q), dict(op='get', key=K), dict(op='tick', n=59), dict(op='get', key=K), dict(op='tick', n=1), dict(op='get', key=K)])
+        H.append([dict(op='tick', n=500), s(exp=5), dict(op='tick', n=5), dict(op='set', key=K, value=b'back', cas='stale', exp=30, quiet=q), dict(op='get', key=K), dict(op='tick', n=29), dict(op='get', key=K)])
         # storing the same value again is a mutation like any other: new CAS, TTL restarted (also for the quiet variants)
         H.append([s(quiet=q), dict(op='get', key=K), s(quiet=q), dict(op='get', key=K), dict(op='set', key=K, value=b'LOST', cas='stale', quiet=q), dict(op='get', key=K)])
         H.append([s(exp=5, quiet=q), dict(op='tick', n=4), s(exp=5, quiet=q), dict(op='tick', n=3), dict(op='get', key=K), dict(op='tick', n=2), dict(op='get', key=K)])
